@@ -253,6 +253,54 @@ class SimBroker(AsyncBroker):
             yield d.obj
 
 
+def make_inmemory(world: "World") -> Any:
+    """The real InMemoryBroker (kick() calls Receiver.callback directly) with recording seams."""
+    from taskiq.brokers.inmemory_broker import InMemoryBroker
+
+    class SimInMemoryBroker(InMemoryBroker):
+        async def kick(self, message: BrokerMessage) -> None:
+            w = world
+            k = w.k_of(message.task_id, message.task_name)
+            n = w.kick_count.get(k, 0)
+            w.kick_count[k] = n + 1
+            w.rec("kick_call", None, k=k, n=n, task_id=message.task_id, task_name=message.task_name,
+                  labels=enc_labels(message.labels), typed={}, via="inmemory")
+            raw = message.message
+            d = Delivery(len(w.server.deliveries), k, bytes(raw))
+            w.server.deliveries.append(d)
+            w.server.enqueued += 1
+            d.obj = raw
+            d.worker = 0
+            w.by_obj[id(raw)] = d
+            w.taken.setdefault((0, 0), []).append(d)
+            w.rec("take", d.id, k=k, w=0, ackable=False)
+            await super().kick(message)
+            w.rec("kick_ok", None, k=k, n=n)
+
+    cfg = world.config
+    br = SimInMemoryBroker(
+        cast_types=cfg.get("validate_params", True),
+        propagate_exceptions=cfg.get("propagate", True),
+        await_inplace=cfg.get("await_inplace", False),
+    )
+    br.executor.shutdown()
+    br.executor = SimExecutor(world)
+    br.receiver.executor = br.executor
+    br.receiver.__class__ = RecReceiver      # observation only; constructor state (propagate switch) is kept
+    RecReceiver.world = world
+    br.with_id_generator(lambda: _gen_id(world))
+    br.with_result_backend(SimResultBackend(world))
+    mws: List[TaskiqMiddleware] = []
+    for i, ms in enumerate(cfg.get("middlewares", [])):
+        if ms.get("retry") is None:
+            mws.append(make_middleware(world, i, ms))
+    br.add_middlewares(*mws)
+    for ts in world.tasks:
+        labels = {k: dec_label(v) for k, v in ts.get("labels", {}).items()}
+        br.register_task(make_task_func(world, ts), task_name=ts["name"], **labels)
+    return br
+
+
 class _DBytes(bytes):
     """bytes subclass so that every delivery is a distinct object."""
 
@@ -1129,10 +1177,14 @@ async def _main(world: World, client_fn: Any) -> None:
     world.rec("begin", None)
     cctx = contextvars.copy_context()
     cctx.run(NODE.set, "client")
-    client = make_endpoint(world, "client")
+    if cfg.get("transport") == "inmemory":
+        client = make_inmemory(world)
+        world.workers[0] = {"gen": 0, "node": "client", "alive": True, "stopped": True, "returned": True}
+    else:
+        client = make_endpoint(world, "client")
+        for w in range(cfg.get("workers", 1)):
+            start_worker(world, w)
     world.extra["client"] = client
-    for w in range(cfg.get("workers", 1)):
-        start_worker(world, w)
     # sends
     for m in script.get("messages", []):
         world.pending_sends += 1
